@@ -16,7 +16,7 @@ from vlib import InfraError
 
 LEVEL = "model_checking"
 
-ACTIONS = ("WStart", "WLock", "WEnq", "WSel", "WkTake", "WkExit", "IOStep", "FAStart", "FAEnd", "AgStart", "AgEnd",
+ACTIONS = ("WStart", "WLock", "WEnq", "WSel", "WkTake", "WkExit", "IOStep", "FAStart", "FANext", "AgStart", "AgNext",
            "CStart", "CCancel", "CFlush")
 
 
